@@ -84,6 +84,7 @@ class Variant:
         self.kind = kind  # unit | tuple | named
         self.fields = fields
         self.extra_attrs = []
+        self.disc = None  # explicit discriminant (`A = 3`); the documented order is the declaration position all the same
 
 
 class TypeSpec:
@@ -137,7 +138,7 @@ class TypeSpec:
         vs = []
         for v in self.variants:
             at = "".join("    %s\n" % a for a in v.extra_attrs)
-            vs.append("%s    %s%s," % (at, v.name, self.fields_text(v, indent="        ")))
+            vs.append("%s    %s%s%s," % (at, v.name, self.fields_text(v, indent="        "), " = %s" % v.disc if v.disc is not None else ""))
         return "%spub enum %s%s {\n%s\n}" % (head, self.name, self.decl_generics(), "\n".join(vs))
 
     def all_fields(self):
@@ -371,8 +372,21 @@ def shapes():
         "e_gen": lambda: TypeSpec("enum", [Variant("A", "tuple", [F(None, "A")]), Variant("B", "named", [F("a", "A"), F("b", "u8")])],
                                   [("A: P", "u8")], shape="e_gen"),
         "s_po": lambda: S("named", [F("a", "Po"), F("b", "u8")], "s_po"),
+        # explicit discriminants that disagree with the declaration order (the documentation orders by position)
+        "e_disc3": lambda: _with_disc(TypeSpec("enum", [Variant("A", "unit", []), Variant("B", "unit", []), Variant("C", "unit", []), Variant("D", "unit", [])], shape="e_disc3"),
+                                      [2, None, 0, None]),
+        "e_disc_data": lambda: _with_disc(TypeSpec("enum", [Variant("A", "tuple", [F(None, "u8")]), Variant("B", "unit", []), Variant("C", "named", [F("a", "u8"), F("b", "i8")])],
+                                                   shape="e_disc_data"), [1, None, 0], repr_="#[repr(u8)]"),
     }
     return d
+
+
+def _with_disc(t, discs, repr_=None):
+    for v, d in zip(t.variants, discs):
+        v.disc = d
+    if repr_:
+        t.extra_attrs.append(repr_)
+    return t
 
 
 def attr_options(attr):
